@@ -1,6 +1,11 @@
 package main
 
-import "net/url"
+import (
+	"net/url"
+	"runtime"
+	"strings"
+	"time"
+)
 
 func urlQueryUnescape(s string) (string, error) { return url.QueryUnescape(s) }
 
@@ -8,3 +13,29 @@ func urlQueryUnescape(s string) (string, error) { return url.QueryUnescape(s) }
 // non-zero prefix, a zero prefix with another marker, NAT64, and friends
 var nearMappedV6 = []string{"2001:db8::ffff:c000:201", "1::ffff:10.0.0.1", "::fffe:10.0.0.1", "::1:ffff:10.0.0.1", "64:ff9b::10.0.0.1",
 	"::ffff:0:10.0.0.1", "0:0:0:0:1:ffff:a00:1", "ffff::ffff:10.0.0.1"}
+
+// goroutinesOf counts the goroutines of this process whose stack has a frame in a function whose name contains sub
+// (e.g. "chihaya/pkg/metrics."). Scenarios take the count before they create a component and after its Stop has
+// completed: "its goroutines have exited" means the two are equal.
+func goroutinesOf(sub string) int {
+	buf := make([]byte, 1<<22)
+	n := runtime.Stack(buf, true)
+	c := 0
+	for _, g := range strings.Split(string(buf[:n]), "\n\n") {
+		if strings.Contains(g, sub) {
+			c++
+		}
+	}
+	return c
+}
+
+// goroutinesLeft: how many more goroutines of sub there are than before (g0), once those that are merely on their
+// way out (a Stop's own helper goroutine delivering its result) have had a moment to return.
+func goroutinesLeft(sub string, g0 int) int {
+	left := goroutinesOf(sub) - g0
+	for i := 0; i < 20 && left > 0; i++ {
+		time.Sleep(10 * time.Millisecond)
+		left = goroutinesOf(sub) - g0
+	}
+	return left
+}
